@@ -1,6 +1,6 @@
 """C09 - TLS never fails open."""
 import json
-from gen import common, btls
+from gen import common, btls, systls, ctxstore
 
 LEAN_MODULE = "XcmModel.Props.C09"
 THEOREMS = [
@@ -9,7 +9,58 @@ THEOREMS = [
     "XcmModel.C09.C09_no_write_unless_verified", "XcmModel.C09.C09_no_read_unless_verified",
     "XcmModel.C09.C09_policy_failure_bad", "XcmModel.C09.C09_policy_failure_reports_EPROTO",
     "XcmModel.C09.C09_rejected_peer_never_served",
+    "XcmModel.C09pol.C09_finalize_sound", "XcmModel.C09pol.C09_invalid_combinations_refused",
+    "XcmModel.C09pol.C09_name_verification_needs_auth_and_names", "XcmModel.C09pol.C09_inherited_policy_governs",
+    "XcmModel.C09pol.C09_accepts_only_if_policy_met", "XcmModel.C09pol.C09_each_failure_rejects",
+    "XcmModel.C09pol.C09_revocation_cases", "XcmModel.C09pol.C09_checks_only_restrict",
 ]
+
+RESUME = [
+    # (command, why server 2 must refuse the raw client)
+    ("RESUME btls cert=a1,tc=rootA vname=1,names=a2.verif wrongname", "its certificate does not carry an expected name"),
+    ("RESUME tls cert=a1,tc=rootA vname=1,names=a2.verif:b1.verif wrongname", "its certificate does not carry an expected name"),
+    ("RESUME btls cert=a1,tc=rootA,crlchk=1,crl=crlA-empty time=1 a2", None),    # same policy: must simply work or refuse consistently
+]
+
+
+def matrix_part(ctx):
+    quick = ctx.tier == "quick"
+    exe = systls.build()
+    cmds = systls.sweep(ctx, 7 if quick else 1)
+    for k in range(1 if quick else 12):
+        cmds += systls.gen_matrix(ctx.rng.fork("mx%d" % k), 120 if quick else 400, ctx)[1:] if k else systls.gen_matrix(ctx.rng.fork("mx0"), 120 if quick else 400, ctx)
+    # the default directory state must be replayed in order: one harness run
+    rc, out, err = systls.run(exe, cmds, ctx, timeout=3000)
+    ctx.traces += 1
+    model = common.run_model("tlspolicy", "\n".join(cmds) + "\n")
+    if rc != 0 or len(out) != len(cmds):
+        at = cmds[min(len(out), len(cmds) - 1)]
+        ctx.violation("sys_tls:crash:" + common.crash_site(err), "sys_tls died at %r" % at, {"harness": "sys_tls", "ops": cmds[:len(out) + 1][-6:], "stderr": err[-3000:]})
+        return
+    last_d = "D a1 rootA crlA-empty"
+    for cmd, ml, il in zip(cmds, model, out):
+        if cmd.startswith("D "):
+            last_d = cmd
+            continue
+        ctx.evaluations += 1
+        ctx.nontriv((ml, cmd.split()[1]))
+        systls.compare(ctx, cmd, ml, il, {"harness": "sys_tls", "ops": [last_d, cmd], "model_out": ml, "impl_out": il})
+        ctx.count("tls.verdict." + ml.replace("server=ok ", "").replace(" ", "/"))
+    ctx.sample({"harness": "sys_tls", "cmds": cmds[1:4], "model_out": model[1:4], "impl_out": out[1:4]}, cap=8)
+    # session resumption must not bypass a socket's policy
+    rcmds = ["D a1 rootA crlA-empty"] + [c for c, _ in RESUME]
+    rc, out, err = systls.run(exe, rcmds, ctx)
+    for (cmd, why), il in zip(RESUME, out[1:]):
+        ctx.evaluations += 1
+        f = systls.fields(il)
+        rep = {"harness": "sys_tls", "ops": ["D a1 rootA crlA-empty", cmd], "impl_out": il}
+        if il.startswith("fail"):
+            ctx.corr_break("sys_tls", "%s: %s" % (cmd, il), rep)
+        elif why and (f.get("s2") == "ok" or f.get("delivered") == "1"):
+            ctx.violation("sys_tls:resume:policy-bypassed", "a peer that resumed a TLS session obtained from another server socket was served although %s: %s -> %s" % (why, cmd, il), rep)
+        elif f.get("resumed") == "1" and why:
+            ctx.violation("sys_tls:resume:resumed", "a TLS session was resumed across server sockets with different policies: %s -> %s" % (cmd, il), rep)
+        ctx.nontriv(("resume", il))
 
 
 def run(ctx):
@@ -19,15 +70,36 @@ def run(ctx):
                 "event x every first observer x {handshaking, ready} x tls.auth x certificate verdict {accepted, none, rejected}, "
                 "each followed twice by every kind of later call; then seeded random histories.  Every line compared with the Lean "
                 "Btls model; monitors on the implementation's output: ready only after a successful handshake call AND an accepted "
-                "certificate (tls.auth on), SSL_write/SSL_read never called before that, no data returned before that.")
-    n = btls.run_part(ctx, 150 if quick else 6000)
-    ctx.exhaustive = True
+                "certificate (tls.auth on), SSL_write/SSL_read never called before that, no data returned before that.  "
+                "sys_tls: real btls/tls sockets, real OpenSSL, a generated PKI (two roots, intermediates incl. a revoked one, leaves that "
+                "are valid / from an untrusted root / via an intermediate with or without the chain sent / expired / not yet valid / "
+                "revoked / wrongly named / client-only and server-only key usage, CRLs per issuer): a structured sweep peer credential x "
+                "check_time x CRL configuration x name verification x trust anchors with the policy on the server socket, overridden at "
+                "accept, or on the connecting side, by file and by value, plus random combinations incl. role reversal and the default "
+                "directory; each outcome (EINVAL at creation, per-side verdict, whether application data crossed in either direction) "
+                "compared with the Lean TlsPolicy model; a raw OpenSSL peer re-offering a session obtained from another server socket.  "
+                "unit_ctxstore: the context used holds the designated trust anchors and CRLs (see C18).")
+    btls.run_part(ctx, 150 if quick else 6000)
+    matrix_part(ctx)
+    ctxstore.run_part(ctx, 8 if quick else 300)
+    ctx.exhaustive = False
     ctx.assumptions += [
-        "K-openssl-verify: OpenSSL's chain/validity/CRL/EKU/name checks themselves are the environment; what set_verify configures and "
-        "what real OpenSSL then decides for generated credentials is observed by sys_tls (policy matrix), not proved",
-        "K-openssl-eagain: OpenSSL reports would-block as WANT_READ/WANT_WRITE (the code asserts it)"]
+        "K-openssl-verify: given the flags set_verify/enable_hostname_validation configure, OpenSSL's verdict is what TlsPolicy.accepts "
+        "says for the abstract facts of a credential (chain, validity, revocation, key usage, names); validated by the sys_tls sweep, not proved",
+        "K-openssl-eagain: OpenSSL reports would-block as WANT_READ/WANT_WRITE (the code asserts it)",
+        "utls connects over UX inside one host, so its TLS leg is exercised through tls/btls only"]
 
 
 def replay(path):
     r = json.load(open(path))
+    if r.get("harness") == "sys_tls":
+        class C:
+            rundir = common.RUN + "/replay"
+        rc, out, err = systls.run(systls.build(), r["ops"], C)
+        m = common.run_model("tlspolicy", "\n".join(r["ops"]) + "\n")
+        print("model:", *m, sep="\n  ")
+        print("impl (rc=%d):" % rc, *out, sep="\n  ")
+        return 0
+    if r.get("harness") == "unit_ctxstore":
+        return ctxstore.replay(r)
     return btls.replay(r)
